@@ -147,7 +147,7 @@ func runOpts(c *Ctx) {
 	}
 	walker := c.role("LOWER", "structWalker")
 	if walker != nil {
-		core.Instrs(walker, func(in ssa.Instruction) {
+		p.RegionInstrs(walker, func(in ssa.Instruction) {
 			st, ok := in.(*ssa.Store)
 			if !ok {
 				return
@@ -159,7 +159,7 @@ func runOpts(c *Ctx) {
 			}
 		})
 		// the named lookup map is keyed by that recorded name
-		core.Instrs(walker, func(in ssa.Instruction) {
+		p.RegionInstrs(walker, func(in ssa.Instruction) {
 			if mu, ok := in.(*ssa.MapUpdate); ok {
 				if fr, ok := core.AsFieldLoad(mu.Map); ok && fr.Owner == "ValueSet" && core.TypeStr(mu.Key.Type()) == "string" {
 					kf, isF := core.AsFieldLoad(mu.Key)
@@ -628,13 +628,13 @@ func (c *Ctx) runTags(walker *ssa.Function) {
 	}
 	// reader
 	readerKey := ""
-	for _, ci := range core.Calls(walker, "(reflect.StructTag).Get") {
+	for _, ci := range p.RegionCalls(walker, "(reflect.StructTag).Get") {
 		if s, ok := core.ConstString(ci.Common().Args[1]); ok {
 			readerKey = s
 		}
 	}
 	readerOpts := map[string]bool{}
-	core.Instrs(walker, func(in ssa.Instruction) {
+	p.RegionInstrs(walker, func(in ssa.Instruction) {
 		if lk, ok := in.(*ssa.Lookup); ok && core.TypeStr(lk.X.Type()) == "map[string]string" {
 			if s, ok := core.ConstString(lk.Index); ok {
 				readerOpts[s] = true
@@ -712,9 +712,12 @@ func (c *Ctx) runTags(walker *ssa.Function) {
 
 	// reader structure: name override from part 0; options from parts[1:]; option parsing not conditional on the name part
 	var split *ssa.Call
-	parser := walker // the function that parses the tag: the walker itself or a helper it calls (one level)
-	for _, ci := range core.Calls(walker, "strings.Split") {
-		split, _ = ci.(*ssa.Call)
+	parser := walker // the function that parses the tag: the walker itself, one of its private helpers, or a helper it calls (one level)
+	for _, g := range p.Region(walker) {
+		for _, ci := range core.Calls(g, "strings.Split") {
+			split, _ = ci.(*ssa.Call)
+			parser = g
+		}
 	}
 	if split == nil {
 		for _, cal := range p.StaticCallees(walker) {
@@ -905,14 +908,35 @@ func (c *Ctx) runReject(walker *ssa.Function) {
 	lifter := c.role("REJECT", "lifter")
 	isStruct := p.Func(p.Arg, "isStruct")
 	errReturnGuardedBy := func(f *ssa.Function, pred func(l core.Lit) bool) (bool, string) {
+		// the error values f can return (seen through private helpers that produce them)
+		reach := map[ssa.Value]bool{}
 		for _, r := range core.Returns(f) {
-			ev := r.Results[len(r.Results)-1]
-			if _, isCall := core.Strip(ev).(*ssa.Call); !isCall {
+			if len(r.Results) == 0 {
 				continue
 			}
-			for _, l := range core.Lits(core.Guards(r.Block())) {
-				if pred(l) {
-					return true, p.InstrPos(r)
+			for _, s := range p.ISources(r.Results[len(r.Results)-1]) {
+				reach[core.Strip(s)] = true
+			}
+		}
+		for _, g := range p.Region(f) {
+			if g.Parent() != nil {
+				continue
+			}
+			for _, r := range core.Returns(g) {
+				if len(r.Results) == 0 {
+					continue
+				}
+				ev := r.Results[len(r.Results)-1]
+				if _, isCall := core.Strip(ev).(*ssa.Call); !isCall {
+					continue
+				}
+				if g != f && !reach[core.Strip(ev)] {
+					continue
+				}
+				for _, l := range core.Lits(core.Guards(r.Block())) {
+					if pred(l) {
+						return true, p.InstrPos(r)
+					}
 				}
 			}
 		}
@@ -1029,7 +1053,7 @@ func (c *Ctx) runStructWalk(walker *ssa.Function) {
 	}
 	// the per-field append into ValueSet.values
 	var app *ssa.Call
-	core.Instrs(walker, func(in ssa.Instruction) {
+	p.RegionInstrs(walker, func(in ssa.Instruction) {
 		if cl, ok := in.(*ssa.Call); ok && core.CalleeName(cl.Common()) == "builtin.append" {
 			if fr, ok := core.AsFieldLoad(cl.Common().Args[0]); ok && fr.Owner == "ValueSet" && fr.Field == "values" {
 				app = cl
@@ -1046,6 +1070,19 @@ func (c *Ctx) runStructWalk(walker *ssa.Function) {
 		return
 	}
 	val := elems[0] // *Value alloc
+	if _, isAlloc := val.(*ssa.Alloc); !isAlloc {
+		// the value is built by a private helper (or handed to a recording helper): the one non-nil allocation it can be
+		var allocs []ssa.Value
+		for _, s := range p.ISources(val) {
+			if core.IsNilConst(s) {
+				continue
+			}
+			allocs = append(allocs, s)
+		}
+		if len(allocs) == 1 {
+			val = allocs[0]
+		}
+	}
 	fieldStores := map[string]ssa.Value{}
 	// stores to fields of the Value (directly, or via a literal copied in)
 	var collect func(al ssa.Value, depth int)
@@ -1100,7 +1137,7 @@ func (c *Ctx) runStructWalk(walker *ssa.Function) {
 	}
 	// the struct field being described: call typ.Field(i)
 	var fieldCall *ssa.Call
-	for _, ci := range core.Calls(walker, "(reflect.Type).Field") {
+	for _, ci := range p.RegionCalls(walker, "(reflect.Type).Field") {
 		fieldCall, _ = ci.(*ssa.Call)
 	}
 	if fieldCall == nil {
@@ -1116,7 +1153,7 @@ func (c *Ctx) runStructWalk(walker *ssa.Function) {
 		if !ok || fr.Owner != "reflect.StructField" {
 			return ""
 		}
-		for _, s := range core.Sources(loadBase(fr.Base)) {
+		for _, s := range p.ISources(loadBase(fr.Base)) {
 			if s == ssa.Value(fieldCall) {
 				return fr.Field
 			}
@@ -1127,7 +1164,7 @@ func (c *Ctx) runStructWalk(walker *ssa.Function) {
 	idxOK := false
 	for k, v := range fieldStores {
 		if strings.HasSuffix(k, ".index") || k == "index" {
-			idxOK = v == idx
+			idxOK = v == idx || p.Bind(v) == idx
 		}
 	}
 	c.R.Add("STRUCTWALK", "index-is-field-ordinal", "structWalker", p.InstrPos(app), idxOK, "the recorded struct-field index of a value is the ordinal of the field it describes", fmt.Sprintf("ok=%v", idxOK))
@@ -1246,7 +1283,7 @@ func (c *Ctx) runStructWalk(walker *ssa.Function) {
 	c.R.Add("STRUCTWALK", "typeOnly-empties-name", "structWalker", p.InstrPos(app), emptyOK, "the name is emptied exactly when the tag carries the type-only option", fmt.Sprintf("ok=%v", emptyOK))
 	// S5 skip unexported fields and the marker
 	skipUnexp, skipMarker := false, false
-	for _, l := range core.Lits(core.Guards(app.Block())) {
+	for _, l := range p.ExpandLitsKeep(p.ILits(app.Block())) {
 		if l.Kind == "cmp" && l.Op == token.EQL && l.Pol {
 			if s, ok := core.ConstString(l.Y); ok && s == "" && sfOf(l.X) == "PkgPath" {
 				skipUnexp = true
